@@ -743,5 +743,35 @@ func streamCase(c *ctx) {
 			c.viol("roundtrip", "stream", "TSDStreamReader.HasNext", "%d fields read, %d written", i, len(blocks))
 		}
 		r.Close()
+		// the reader has given its decoder back: two holders that take a decoder each now must get two objects, and
+		// reading two blocks through them in turn returns each block's own values
+		if len(blocks) >= 2 {
+			d1, d2 := encoding.GetTSDDecoder(), encoding.GetTSDDecoder()
+			if d1 == d2 {
+				c.viol("reuse", "stream then two pooled decoders", "GetTSDDecoder", "after a stream reader was drained and closed the decoder pool hands the same decoder to two holders")
+			} else {
+				b1, b2 := blocks[0], blocks[len(blocks)-1]
+				e1, e2 := encoding.GetTSDEncoder(b1.start), encoding.GetTSDEncoder(b2.start)
+				feed(e1, b1, apiAppend)
+				feed(e2, b2, apiAppend)
+				x1, err1 := e1.Bytes()
+				x2, err2 := e2.Bytes()
+				x1, x2 = cp(x1), cp(x2)
+				encoding.ReleaseTSDEncoder(e1)
+				encoding.ReleaseTSDEncoder(e2)
+				if err1 == nil && err2 == nil && b1.n() > 0 && b2.n() > 0 {
+					d1.Reset(x1)
+					d2.Reset(x2)
+					if readHVS(c, d1, b1, "stream then two pooled decoders", b1.n()/2) {
+						d1.Reset(x1)
+						_ = readSeq(c, d2, b2, "stream then two pooled decoders") && readSeq(c, d1, b1, "stream then two pooled decoders")
+					}
+				}
+			}
+			encoding.ReleaseTSDDecoder(d1)
+			if d2 != d1 {
+				encoding.ReleaseTSDDecoder(d2)
+			}
+		}
 	}
 }
